@@ -119,8 +119,7 @@ Fixpoint show_fast (a : fast) : bytes :=
   match a with
   | FLeaf w o v => b "L(" ++ hex w ++ [44] ++ show_fop o ++ [44] ++ hex v ++ [41]
   | FNot x => b "N(" ++ show_fast x ++ [41]
-  | FAnd l => b "A(" ++ join [59] ((fix go (l : list fast) : list bytes :=
-                                      match l with [] => [] | x :: r => show_fast x :: go r end) l) ++ [41]
+  | FAnd l => b "A(" ++ join [59] (map show_fast l) ++ [41]
   end.
 
 Definition run_filter (kind : bytes) (args : list bytes) : bytes :=
